@@ -11,13 +11,48 @@ PROPERTIES = {}
 HOOK_COMMITS = []
 WIP = "check not built yet in this session (work in progress; planned per DESIGN.md)"
 NOT_APPLICABLE = {"C%02d" % i: WIP for i in range(1, 21)}
-NOT_APPLICABLE["C12"] = ("integer index-set code inside heap-allocating functions (kfold/random splitters, samplers): lifted code gave CBMC no verdict "
-                         "(600-900 s, 14-35 GB, three memory models) and the SRE engine has no symbolic integers; quantifier is over permutations/seeds")
 NOT_APPLICABLE["C18"] = ("data-race freedom / schedule independence over OS-thread interleavings of std::thread/mutex/condition_variable code: "
                          "no solver-based engine in this image can execute C++ threads symbolically (CBMC C++ front end stops at libstdc++ headers)")
 SRE_TECH = "bounded symbolic execution of the real code over symbolic reals (LLVM-instrumented libnano, fork per feasible branch), z3 nlsat decides every obligation"
 SRE_NOTE = ("trusted: clang-14/LLVM-14, symfp pass + symrt runtime (cross-validated against the un-instrumented build on every run), z3 4.8.12; "
             "assumes real arithmetic (no rounding), scalar -O1 code path, stated input boxes and sizes; inline thread pool and fixed RNG seed")
+
+SBV_TECH = ("bounded symbolic execution of the real code at the LLVM-IR level (own KLEE-style interpreter over the clang-14 bitcode of libnano and the harness, "
+            "bit-vector terms, fork per feasible branch, symbolic pointers merged over their feasible targets); z3 (QF_BV: lazy SMT core, then bit-blasting + SAT) decides every obligation")
+SBV_NOTE = ("trusted: clang-14/LLVM-14 -O1 bitcode, the SBV interpreter (cross-validated against the native build of the same bitcode on every run), z3 4.8.12; "
+            "libstdc++/libc functions without bitcode run natively on concrete arguments (listed per run as `native:` labels); stated contracts replace the random source")
+SBV_ASSUME = [
+    "SBV: verified artefact is the scalar clang-14 -O1 -DNDEBUG -DEIGEN_DONT_VECTORIZE bitcode of /repo's current sources, interpreted with machine-integer (bit-vector) semantics",
+    "SBV: functions without bitcode (libstdc++.so, libc) are executed natively on concrete arguments; a native call that would read symbolic memory ends the path as inconclusive",
+    "SBV: floating-point operations are executed concretely; a floating-point operation on a symbolic value ends the path as inconclusive",
+    "SBV: malloc/new never fail; undef values read as 0",
+]
+
+PROPERTIES["C12"] = {
+    "level": "other",
+    "level_text": "bounded symbolic verification: for EVERY list of n distinct symbolic sample indices and EVERY behaviour of the random source (each std::uniform_int_distribution draw is an arbitrary value of its range, so every permutation std::shuffle can produce and every with-replacement selection is covered) the real k-fold / random splitters and the index samplers return sorted, disjoint, covering index sets of the promised sizes; solver verdict per obligation on every path of the real code",
+    "level_note": SBV_NOTE,
+    "technique": SBV_TECH,
+    "explanation": "C12: kfold_splitter_t::split, random_splitter_t::split, sample_without_replacement, sample_with_replacement executed symbolically from their bitcode (std::shuffle, Eigen segment copies, std::sort, tensor storage as compiled).",
+    "assumptions": SBV_ASSUME + ["contract: std::uniform_int_distribution<T>::operator()(rng, param) returns an arbitrary value of [param.a, param.b] (replaces the pseudo-random engine: 'any seed' becomes 'any draw sequence')",
+                                 "sample indices: distinct symbolic int64 in [0, 10^6], given in arbitrary order (ordered=0) or increasing order"],
+    "bounds": {"n": "3..6 samples", "folds": "2..3", "train percentage": "10..90", "count": "<= n"},
+    "outside": ["'equal seeds give equal splits' (the random engine is replaced by the contract; determinism of minstd_rand is not examined)",
+                "weighted sampling (std::discrete_distribution on doubles) and points sampled from a ball (floating point): not covered by this engine",
+                "gboost::sampler_t", "n > 6"],
+    "units": [
+        {"engine": "sbv", "harness": "C12_split", "sources": ["C12_split.cpp"],
+         "quick": ["mode=kfold;n=4;folds=2", "mode=kfold;n=5;folds=2", "mode=kfold;n=3;folds=3", "mode=kfold;n=4;folds=3;ordered=1", "mode=random;n=4;folds=2;perc=80",
+                   "mode=random;n=3;folds=2;perc=10", "mode=without;n=4;count=2", "mode=without;n=4;count=4", "mode=without;n=4;count=0", "mode=with;n=3;count=3", "mode=with;n=4;count=2"],
+         "thorough": ["mode=kfold;n=%d;folds=%d;ordered=%d" % (n, f, o) for (n, f) in ((3, 2), (3, 3), (4, 2), (4, 3), (5, 2), (5, 3), (6, 2), (6, 3)) for o in (0, 1)] +
+                     ["mode=random;n=%d;folds=%d;perc=%d" % (n, f, p) for (n, f, p) in ((4, 2, 80), (5, 2, 50), (3, 2, 10), (5, 2, 90), (6, 2, 75), (5, 3, 10))] +
+                     ["mode=without;n=%d;count=%d" % (n, c) for (n, c) in ((4, 2), (5, 5), (4, 0), (6, 3), (5, 1))] + ["mode=with;n=%d;count=%d" % (n, c) for (n, c) in ((3, 3), (4, 2), (2, 5), (5, 3))],
+         "budget": {"quick": {"deadline_s": 150, "max_paths": 20000, "query_s": 20}, "thorough": {"deadline_s": 1500, "max_paths": 400000, "query_s": 60}},
+         "encoded": ["nano::kfold_splitter_t::split", "nano::random_splitter_t::split", "nano::sample_without_replacement", "nano::sample_with_replacement", "nano::idiv", "nano::make_rng",
+                     "std::shuffle<long*, std::minstd_rand> (libstdc++, incl. the two-draws-at-once path)", "std::sort / std::__insertion_sort instantiations on long*", "nano::tensor_t storage / Eigen segment assignment",
+                     "nano::parameter_t assignment and value<>() (concrete)"]},
+    ],
+}
 
 PROPERTIES["C05"] = {
     "level": "other",
